@@ -156,6 +156,7 @@ structure Link where
   tfs : List String
   multiMatch : Bool
   nacts : List NAct
+  lid : Nat := 0            -- an id: written on a chained link (0 = none): the id its run-time target exclusions are looked up under (rule.go:236)
 deriving Repr, DecidableEq
 
 structure Rule where
@@ -578,7 +579,7 @@ def evalLink (env : Env) (rules : List Rule) (ruleId : Nat) (l : Link) (tx : Tx)
     -- SecAction / SecMarker: forced match with an empty datum
     let m : MD := ⟨.unknown, [], []⟩
     (runNActs rules (matchVariable tx m) l.nacts, [m])
-  | some o => evalTargets env rules (ecolOf tx ruleId) l o l.targets tx
+  | some o => evalTargets env rules (ecolOf tx (if l.lid != 0 then l.lid else ruleId)) l o l.targets tx
 
 /-- the chain walk: every link must produce at least one match, in order -/
 def evalLinks (env : Env) (rules : List Rule) (ruleId : Nat) : List Link → Tx → Tx × Option (List MD)
